@@ -1,6 +1,7 @@
 """C14 — files outside the logger's naming pattern are never touched and never disturb it."""
 from rulelib import *
 from report import CheckError
+import table as T
 from fdi import FDI, Const, Agg, Sym, Ref
 from callgraph import effect_class
 
@@ -181,85 +182,115 @@ def predicate(R, ctx):
     R.check('R14.2', 'conjunct:fixed-part-prefix', ok and uses_filter(ctx, rd, c[0].path if c else None), "file_name.starts_with(fixed_name_part)",
             f"the listing does not require the file name to start with the fixed name part ({why})", where=f.bodies[rd].loc())
 
-    # suffix
-    c = closure_of(ctx, ff, lambda x: any(callee_name(t) == 'std::path::Path::extension' for bb, t in x.calls()))
-    ok = False
-    why = 'closure not found'
-    if len(c) == 1:
-        rows = FDI(f).run(c[0].path)
-        ok = len(rows) in (3, 4)
-        for r in rows:
-            sfx = r.get('variant(*arg1.0)')
-            ext = r.get('variant(std::path::Path::extension(&path))')
-            if r.undecided:
-                ok, why = False, r.undecided
-            elif sfx == 'None':
-                ok = ok and isinstance(r.result, Const) and r.result.v is True
-            elif ext == 'None':
-                ok = ok and isinstance(r.result, Const) and r.result.v is False
-            elif sfx == 'Some' and ext == 'Some' and isinstance(r.result, Const):
-                # the equality was decided by an ordering atom: which operands?
-                oa = [(a, v, r.atom_info.get(a, {})) for a, v in r.cond if r.atom_info.get(a, {}).get('kind') == 'ord']
-                good = len(oa) == 1 and 'Path::extension' in repr(oa[0][2]) and "'arg1'" in repr(oa[0][2]) and \
-                    not re.search(r'ends_with|starts_with|contains|file_name|file_stem', repr(oa[0][2])) and (r.result.v is (oa[0][1] == 'eq'))
-                if not good:
-                    ok, why = False, f"with a requested suffix and an extension present the closure decides {r.result!r} on {[a[:80] for a, v, i in oa]}; documented: extension == suffix"
-            elif sfx == 'Some' and ext == 'Some':
-                x = getattr(r.result, 'x', None)
-                good = isinstance(x, tuple) and x[0] == 'call' and re.search(r'PartialEq<.*>.*::eq$', x[1]) and 'Path::extension' in repr(x[2]) and "'arg1'" in repr(x[2]) and \
-                    not re.search(r'ends_with|starts_with|contains|file_name|file_stem', repr(x[2]))
-                if not good:
-                    ok, why = False, f"with a requested suffix and an extension present the closure returns {r.result!r}; documented: extension == suffix"
-            else:
-                ok, why = False, f"unexpected row {r.cond}"
-    R.check('R14.2', 'conjunct:suffix-equals-extension', ok and uses_filter(ctx, ff, c[0].path if c else None), "no suffix requested -> true; no extension -> false; else extension == suffix",
-            f"the suffix conjunct of the family predicate deviates: {why} (a foreign file whose extension merely resembles the suffix would be taken as a log file)",
-            where=f.bodies[ff].loc())
-
-    # separator + infix
-    c = closure_of(ctx, ff, lambda x: any(callee_name(t).endswith('InfixFilter::filter_infix') for bb, t in x.calls()))
-    ok_sep = ok_nonempty = ok_infix = ok_prefix = False
-    why = 'closure not found'
-    if len(c) == 1:
-        I = FDI(f, effects=[r'InfixFilter::filter_infix$'], no_inline=[r'InfixFilter::filter_infix$'])
-        rows = I.run(c[0].path)
-        ok_sep = ok_nonempty = ok_infix = ok_prefix = True
-        n_true = 0
-        for r in rows:
-            if r.undecided:
-                why = r.undecided
-                ok_sep = ok_infix = False
-                break
-            atoms = [(r.long(a), v) for a, v in r.cond]
-            fixed_empty = next((v for a, v in atoms if re.match(r'^std::string::String::is_empty\(&\*arg1\.0\)$', a)), None)
-            calls = r.effects
-            positive = bool(calls)
-            if positive:
-                n_true += 1
-                # the value returned is the predicate's result
-                if not (isinstance(r.result, Sym) and r.result.n.endswith('filter_infix#1')):
-                    ok_infix, why = False, f"the closure does not return the infix predicate's verdict ({r.result!r})"
-                arg = r.long(calls[0][1][1])
-                if 'file_stem' not in arg or not re.search(r"find\(.*'\.'", arg) and 'RangeTo' not in arg:
-                    ok_infix, why = False, f"the infix predicate is not applied to the stem text up to the first '.': {arg[:160]}"
-                if fixed_empty is False:
-                    pre = [a for a, v in atoms if 'strip_prefix' in a and 'arg1.0' in a and v == 'Some']
-                    sep = [a for a, v in atoms if 'strip_prefix' in a and "'_'" in a and v == 'Some']
-                    if not pre:
-                        ok_prefix, why = False, "a file passes without its stem starting with the fixed name part"
-                    if not sep:
-                        ok_sep, why = False, "a file passes although the byte after the fixed name part is not the `_` separator (e.g. `appXr00001.log` next to basename `app`)"
-                ne = [a for a, v in atoms if re.match(r'^core::str::<impl str>::is_empty\(', a) and v is False]
-                if not ne:
-                    ok_nonempty, why = False, "an empty infix text is handed to the predicate"
-                if 'strip_prefix' not in arg and fixed_empty is False:
-                    ok_infix, why = False, "the infix text is not the part after the fixed name part and separator"
-        if n_true < 2:
-            ok_infix, why = False, f"only {n_true} accepting rows"
-    for key, okx, text in (('conjunct:stem-starts-with-fixed-part', ok_prefix, 'stem.strip_prefix(fixed_name_part)'), ('conjunct:separator', ok_sep, "then strip_prefix('_')"),
-                           ('conjunct:non-empty-infix', ok_nonempty, 'non-empty infix text'), ('conjunct:infix-predicate', ok_infix, 'infix_filter.filter_infix(text up to the first `.`)')):
-        R.check('R14.2', key, okx and uses_filter(ctx, ff, c[0].path if c else None), text, f"family predicate: {why}", where=f.bodies[ff].loc())
+    family_table(R, ctx, ff)
     infix_tables(R, ctx)
+
+
+def family_table(R, ctx, ff):
+    """filter_files as a whole: for one listed element, it is kept iff every documented conjunct holds.  The table is the same for a
+    chain of Iterator::filter closures ending in collect() and for a `for` loop with `continue`/push (vec models); conjuncts are
+    recognised by what their atoms examine, atoms outside the documented predicate are don't-cares."""
+    import fdi_iter
+    f = ctx.f
+    b = f.bodies[ff]
+    EFF = [r'InfixFilter::filter_infix$', r'FileSpec::fixed_name_part$']
+    NEXTRX = r'as std::iter::Iterator>::next$'
+    I = FDI(f, effects=EFF + [NEXTRX], no_inline=EFF, models=fdi_iter.vec_models(), loop_k=1, max_steps=30000)
+    rows = I.run(ff, arg_names=['self', 'files', 'infix_filter', 'o_suffix'])
+    CONJ = ['suffix-equals-extension', 'stem-starts-with-fixed-part', 'separator', 'non-empty-infix', 'infix-predicate']
+    bad = {}
+    n = kept_rows = 0
+
+    def flag(c, why):
+        bad.setdefault(c, why)
+    for r in rows:
+        if r.undecided:
+            raise CheckError(f"R14.2 family table UNDECIDED: {r.undecided}")
+        present = [v for a, v in r.cond if r.atom_info.get(a, {}).get('kind') == 'variant' and isinstance(T.strip_refs(r.atom_info[a]['of']), tuple)
+                   and T.strip_refs(r.atom_info[a]['of'])[0] == 'eff' and re.search(NEXTRX, T.strip_refs(r.atom_info[a]['of'])[1])]
+        if present.count('Some') != 1:
+            continue
+        if not (isinstance(r.result, Agg) and r.result.adt == 'vec'):
+            raise CheckError(f"R14.2 family table: result is not a list value ({r.result!r})")
+        kept = len(r.result.fields) == 1
+        if kept and not T.eff_indices(_x(r.result.fields[0]), NEXTRX):
+            flag('infix-predicate', "the element kept is not the listed element")
+        v = {'sfx': None, 'ext': None, 'eq': None, 'fixed_empty': None, 'pre': None, 'sep': None, 'nonempty': None, 'finfix': None}
+        for a, val in r.cond:
+            info = r.atom_info.get(a, {})
+            kind = info.get('kind')
+            la = r.long(a)
+            if a == 'variant(o_suffix)':
+                v['sfx'] = val
+            elif kind == 'variant' and la.startswith('variant(std::path::Path::extension('):
+                v['ext'] = val
+            elif kind == 'ord' and 'o_suffix' in T.inputs_in((info['a'], info['b'])) and 'Path::extension' in repr((info['a'], info['b'])) and \
+                    not re.search(r'ends_with|starts_with|contains|file_name|file_stem', repr((info['a'], info['b']))):
+                v['eq'] = (val == 'eq')
+            elif re.match(r'^(std::string::String|core::str::<impl str>)::is_empty\(', la) and 'fixed_name_part#' in la and 'file_stem' not in la:
+                v['fixed_empty'] = bool(val)
+            elif kind == 'variant' and _is_call(info['of'], r'str>?::strip_prefix$'):
+                a0, a1 = T.strip_refs(info['of'])[2][0], T.strip_refs(info['of'])[2][1]
+                if T.strip_refs(a1) in (('const', '_'), ('const', "_")) and 'file_stem' in repr(a0):
+                    v['sep'] = val
+                elif T.eff_indices(a1, r'fixed_name_part$') and 'file_stem' in repr(a0) and not T.eff_indices(a0, r'fixed_name_part$'):
+                    v['pre'] = val
+            elif re.match(r'^core::str::<impl str>::is_empty\(', la) and 'file_stem' in la:
+                v['nonempty'] = not val
+            elif re.search(r'filter_infix#\d+', a) and kind in ('bool', 'switch'):
+                v['finfix'] = bool(val)
+        some = lambda x: None if x is None else (x == 'Some')
+        suffix_ok = True if v['sfx'] == 'None' else (None if v['sfx'] is None else T.and3(some(v['ext']), True if v['ext'] == 'None' else v['eq']))
+        if v['sfx'] == 'Some' and v['ext'] == 'None':
+            suffix_ok = False
+        if v['fixed_empty'] is True:
+            pre_ok = sep_ok = True
+        elif v['fixed_empty'] is False:
+            pre_ok, sep_ok = some(v['pre']), (False if v['pre'] == 'None' else some(v['sep']))
+        else:
+            pre_ok = sep_ok = None
+        conj = {'suffix-equals-extension': suffix_ok, 'stem-starts-with-fixed-part': pre_ok, 'separator': sep_ok, 'non-empty-infix': v['nonempty'], 'infix-predicate': v['finfix']}
+        exp = T.and3(*conj.values())
+        n += 1
+        if kept:
+            kept_rows += 1
+            for c, val in conj.items():
+                if val is not True:
+                    flag(c, {'suffix-equals-extension': "a file is kept although a suffix is requested and its extension was not compared with it (extension == suffix)",
+                             'stem-starts-with-fixed-part': "a file passes without its stem starting with the fixed name part",
+                             'separator': "a file passes although the byte after the fixed name part is not the `_` separator (e.g. `appXr00001.log` next to basename `app`)",
+                             'non-empty-infix': "an empty infix text is handed to the predicate",
+                             'infix-predicate': "a file is kept without the infix predicate's consent"}[c] + f" [row: {dict((k, x) for k, x in v.items() if x is not None)}]")
+            # the text handed to the infix predicate
+            fi = [e for e in r.effects if e[0].endswith('filter_infix')]
+            if fi:
+                arg = r.long(fi[0][1][1])
+                if 'file_stem' not in arg or (not re.search(r"find\(.*'\.'", arg) and 'RangeTo' not in arg):
+                    flag('infix-predicate', f"the infix predicate is not applied to the stem text up to the first '.': {arg[:160]}")
+                if v['fixed_empty'] is False and 'strip_prefix' not in arg:
+                    flag('infix-predicate', "the infix text is not the part after the fixed name part and separator")
+        elif exp is True:
+            flag('infix-predicate', f"a file satisfying every documented conjunct is dropped [row: {dict((k, x) for k, x in v.items() if x is not None)}]")
+    if not bad and (kept_rows < 4 or n < 12):
+        raise CheckError(f"R14.2 family table: form not recognised ({n} one-element rows, {kept_rows} accepting)")
+    for c in CONJ:
+        R.check('R14.2', f"conjunct:{c}", c not in bad, f"holds on {n} one-element rows ({kept_rows} accepting)",
+                f"family predicate: {bad.get(c)} (a foreign file would be taken as a log file of this logger)", where=b.loc(), sample={'rows': n, 'accepting': kept_rows})
+
+
+def _is_call(x, rx):
+    x = T.strip_refs(x)
+    return isinstance(x, tuple) and len(x) == 3 and x[0] == 'call' and re.search(rx, x[1]) is not None and len(x[2]) >= 2
+
+
+def _x(v):
+    if isinstance(v, Const):
+        return ('const', v.v)
+    if isinstance(v, Sym):
+        return v.x
+    if isinstance(v, Agg):
+        return ('agg', v.adt, v.variant, tuple(_x(y) for y in v.fields))
+    return ('unknown',)
 
 
 def uses_filter(ctx, parent, closure_path):
